@@ -703,3 +703,443 @@ Definition ex_input_table : wtable :=
      wt_gattrs := [] |}.
 Example ex_table_ok : table_ok ex_input_args ex_input_table = true.
 Proof. vm_compute. reflexivity. Qed.
+
+(* ====================================================================== the whole document through the file tree *)
+Lemma prefix_app_self p s : String.prefix p (p ++ s) = true.
+Proof. induction p as [|a p IH]; simpl; [destruct s; reflexivity|]. destruct (Ascii.ascii_dec a a); [exact IH|congruence]. Qed.
+
+Lemma prefix_app_cases q : forall p s, String.prefix q (p ++ s) = true -> String.prefix q p = true \/ String.prefix p q = true.
+Proof.
+  induction q as [|a q IH]; intros p s H.
+  - left. destruct p; reflexivity.
+  - destruct p as [|b p]; [right; reflexivity|]. simpl in H. simpl.
+    destruct (Ascii.ascii_dec a b) as [E|E]; [|discriminate]. subst b.
+    destruct (Ascii.ascii_dec a a); [|congruence]. apply (IH p s H).
+Qed.
+
+Lemma all_some_map_some {A} (r : list A) : all_some (map Some r) = Some r.
+Proof. induction r as [|x r IH]; simpl; auto. rewrite IH. reflexivity. Qed.
+
+Lemma existsb_perm {A} (p : A -> bool) l l' : Permutation l l' -> existsb p l = existsb p l'.
+Proof.
+  induction 1; simpl; auto.
+  - rewrite IHPermutation. reflexivity.
+  - destruct (p x), (p y); reflexivity.
+  - congruence.
+Qed.
+
+Section Doc.
+  Variable F : Type.
+  Variables (r32 rint : F -> F) (cval : cst -> F) (ofnat : nat -> F) (other : F) (weq : F -> F -> bool) (isint : F -> bool).
+  Hypothesis H1 : forall x, isint x = true -> rint (r32 x) = r32 x.
+  Hypothesis H2 : forall c, c <> CHalf -> rint (cval c) = cval c.
+  Hypothesis H3 : forall c, r32 (cval c) = cval c.
+  Hypothesis H4 : forall x y, weq x y = true <-> x = y.
+  Variables X XML : Type.
+  Variable xcls : X -> string.
+  Variable xexport : X -> option XML.
+  Variable xbuild : string -> XML -> option X.
+  Variable corder : list (cgroup F) -> list (cgroup F).
+  Hypothesis Hcorder : forall l, Permutation (corder l) l.            (* PyTables: the children, in some order *)
+  Variable g : h5gen.
+  Hypothesis Hall : all_layouts_ok g = true.
+  Hypothesis Hst : all_stores_ok g = true.
+  Hypothesis Hgr : groups_ok g = true.
+  Hypothesis Hsk : skeleton_ok g = true.
+
+  Notation dconstruct := (dconstruct F).
+  Notation write_cgroup := (write_cgroup F r32 cval weq g).
+  Notation load_cgroup := (load_cgroup F rint cval ofnat other weq g).
+  Notation sem32_dc := (sem32_dc F r32 cval weq).
+  Notation dc_inst := (dc_inst F).
+  Notation pops_of := (pops_of F).
+
+  (* what "the format supports" means for one construct of a network whose constructs are cs *)
+  Definition supported_c (cs : list dconstruct) (c : dconstruct) : Prop :=
+    In (dc_kind F c) table_kinds /\
+    Forall (full_wf F cval (dc_kind F c)) (dc_rows F c) /\ Forall (fun r => typed F isint (snd r)) (dc_rows F c) /\
+    Forall (fun r => In (fst r) (variants_of (dc_kind F c))) (dc_rows F c) /\
+    (* without rows only a (sized) population or a chemical projection can be written *)
+    (dc_rows F c = [] -> dc_kind F c = "population" \/ dc_kind F c = "projection") /\
+    (* the writer has a table for the combination of row variants present *)
+    (dc_rows F c <> [] -> select_table F cval weq g (dc_kind F c) (dc_rows F c) <> None) /\
+    (* an electrical / continuous connection between two populations without instances has no place for a weight *)
+    ((dc_kind F c = "electrical" \/ dc_kind F c = "continuous") -> dc_inst cs c = false ->
+       Forall (fun r => unitw F cval weq (dc_kind F c) (sem32_of F r32 (dc_kind F c) (snd r)) = true) (dc_rows F c)).
+
+  Lemma sk_parts :
+    forallb (dispatch_ok (g_skel g)) table_kinds = true /\
+    forallb (fun wt => type_attr_ok (wt_kind wt) (wt_gattrs wt)) (g_writer g) = true /\
+    type_attr_ok "projection" (sk_empty_proj_w (g_skel g)) = true /\
+    forallb (fun x => let '(a, f, _) := x in
+                       match assoc a (sk_empty_proj_w (g_skel g)) with Some s => gsrc_eqb s (GField f) | None => false end
+                       && match assoc f (sk_empty_proj_read (g_skel g)) with Some b => b | None => false end) (gspec "projection") = true.
+  Proof.
+    unfold skeleton_ok in Hsk. repeat (apply andb_true_iff in Hsk as [Hsk ?]). auto.
+  Qed.
+
+  Lemma class_of_written kind s :
+    In kind table_kinds -> group_class g (kind_prefix g kind ++ s) = Some (class_of_kind kind).
+  Proof.
+    intro Hk. destruct sk_parts as [D _]. rewrite forallb_forall in D. specialize (D kind Hk).
+    unfold dispatch_ok in D. unfold kind_prefix, group_class.
+    destruct (assoc kind (sk_wprefix (g_skel g))) as [p|]; [|discriminate]. simpl.
+    apply andb_true_iff in D as [Dall Dex]. rewrite forallb_forall in Dall.
+    destruct (find (fun pc => String.prefix (fst pc) (p ++ s)) (sk_rprefix (g_skel g))) as [pc|] eqn:Ef.
+    - apply find_some in Ef as [Hin Hp]. specialize (Dall pc Hin).
+      destruct (prefix_app_cases _ _ _ Hp) as [E|E]; rewrite E in Dall; simpl in Dall.
+      + apply String.eqb_eq in Dall. rewrite Dall. reflexivity.
+      + rewrite orb_true_r in Dall. apply String.eqb_eq in Dall. rewrite Dall. reflexivity.
+    - exfalso. apply existsb_exists in Dex as [pc [Hin Hp]]. apply String.eqb_eq in Hp.
+      pose proof (find_none _ _ Ef pc Hin) as N. simpl in N. rewrite Hp, prefix_app_self in N. discriminate.
+  Qed.
+
+  (* attribute fields read back from what write_attrs wrote, given the writer's map agrees with the specification *)
+  Lemma fields_back (w : list (string * gsrc)) gk (attrs : string -> option string) :
+    (forall a f arg, In (a, f, arg) (gspec gk) -> read_attr (write_attrs w attrs) a = attrs f) ->
+    map (fun x => (snd (fst x), read_attr (write_attrs w attrs) (fst (fst x)))) (gspec gk)
+    = map (fun f => (f, attrs f)) (attr_fields gk).
+  Proof.
+    intro H. unfold attr_fields. rewrite map_map. apply map_ext_in. intros [[a f] arg] Hin. simpl. f_equal. eapply H; eauto.
+  Qed.
+
+  Lemma empty_proj_attrs (attrs : string -> option string) a f arg :
+    In (a, f, arg) (gspec "projection") -> read_attr (write_attrs (sk_empty_proj_w (g_skel g)) attrs) a = attrs f.
+  Proof.
+    intro Hin. destruct sk_parts as [_ [_ [_ E]]]. rewrite forallb_forall in E. specialize (E _ Hin). simpl in E.
+    apply andb_true_iff in E as [E _].
+    destruct (assoc a (sk_empty_proj_w (g_skel g))) as [s|] eqn:Ea; [|discriminate].
+    unfold read_attr. rewrite (assoc_write_attrs _ attrs _ _ Ea).
+    destruct s; simpl in E; try discriminate. apply String.eqb_eq in E. subst. reflexivity.
+  Qed.
+
+  Lemma type_attr_read kind w (attrs : string -> option string) :
+    type_attr_ok kind w = true -> class_of_kind kind = "projection" ->
+    kind_of_type (read_attr (write_attrs w attrs) "type") = kind.
+  Proof.
+    unfold type_attr_ok. intros H Hc. rewrite Hc in H. simpl in H.
+    destruct (assoc "type" w) as [s|] eqn:Ea; [|discriminate]. destruct s; try discriminate.
+    unfold read_attr. rewrite (assoc_write_attrs _ attrs _ _ Ea). simpl. apply String.eqb_eq in H. exact H.
+  Qed.
+
+  Lemma classify_total kind inst cols s :
+    In kind table_kinds -> (kind = "electrical" \/ kind = "continuous" -> inst = false -> unitw F cval weq kind s = true) ->
+    classify F cval weq kind inst cols s <> None.
+  Proof.
+    intros Hk Hu. unfold table_kinds in Hk. simpl in Hk. unfold H5.classify, classify_b.
+    destruct Hk as [K|[K|[K|[K|[K|[]]]]]]; subst kind; simpl; try discriminate.
+    - destruct inst; [destruct (unitw F cval weq "electrical" s); discriminate|].
+      rewrite (Hu (or_introl eq_refl) eq_refl). discriminate.
+    - destruct inst; [destruct (unitw F cval weq "continuous" s); discriminate|].
+      rewrite (Hu (or_intror eq_refl) eq_refl). discriminate.
+  Qed.
+
+  Lemma rebuild_total cl : forall l, (forall s, In s l -> cl s <> None) -> exists t, rebuild_with F cl l = Some t.
+  Proof.
+    induction l as [|s t IH]; intro H; simpl; [eauto|].
+    destruct (cl s) as [v|] eqn:E; [|exfalso; apply (H s (or_introl eq_refl) E)].
+    destruct (IH (fun x Hx => H x (or_intror Hx))) as [r Er]. rewrite Er. eauto.
+  Qed.
+
+  (* a written table is loaded (no refusal) to the float32 image of its rows *)
+  Lemma rows_back kind inst rows wt :
+    In kind table_kinds ->
+    select_table F cval weq g kind rows = Some wt ->
+    Forall (full_wf F cval kind) rows -> Forall (fun r => typed F isint (snd r)) rows ->
+    Forall (fun r => In (fst r) (variants_of kind)) rows ->
+    (kind = "electrical" \/ kind = "continuous" -> inst = false ->
+       Forall (fun r => unitw F cval weq kind (sem32_of F r32 kind (snd r)) = true) rows) ->
+    exists cells, write_rows F r32 cval wt rows = Some cells /\ length cells = length rows /\
+      load_rows F rint cval ofnat other weq kind inst (wt_names wt) (reader_of g kind) cells
+      = Some (sem_rows F cval weq kind (map (fun r => sem32_of F r32 kind (snd r)) rows)).
+  Proof.
+    intros Hk Hsel Hf Ht Hv Hu.
+    assert (Hin : In wt (g_writer g)) by (unfold select_table in Hsel; apply find_some in Hsel; tauto).
+    assert (Hs : stores_ok wt = true) by (unfold all_stores_ok in Hst; rewrite forallb_forall in Hst; auto).
+    destruct (select_row_wf F cval weq isint H4 g kind rows wt Hsel Hs Hf Ht Hv) as [Hkk Hwf]. subst kind.
+    destruct (gen_table_roundtrip g Hall F r32 rint cval ofnat other isint H1 H2 H3 wt Hin rows Hwf) as [cells [Hw [Hlen Hd]]].
+    destruct (gen_construct_roundtrip g Hall F r32 rint cval ofnat other weq isint H1 H2 H3 H4 wt Hin inst rows Hwf)
+      as [cells' [Hw' Hout]].
+    rewrite Hw in Hw'. inversion Hw'; subst cells'. clear Hw'.
+    exists cells. split; [exact Hw|]. split; [exact Hlen|].
+    destruct (load_rows F rint cval ofnat other weq (wt_kind wt) inst (wt_names wt) (reader_of g (wt_kind wt)) cells) as [out|] eqn:El.
+    - rewrite (Hout out eq_refl). reflexivity.
+    - exfalso. unfold H5.load_rows in El. rewrite (Hd 0) in El.
+      destruct (rebuild_total (classify F cval weq (wt_kind wt) inst (has_wd_cols (wt_names wt)))
+                  (map (fun r => sem32_of F r32 (wt_kind wt) (snd r)) rows)) as [t Et].
+      { intros s Hs'. apply classify_total; auto. intros K I. apply in_map_iff in Hs' as [r [E Hr]]. subst s.
+        specialize (Hu K I). rewrite Forall_forall in Hu. apply (Hu r Hr). }
+      unfold H5.rebuild in El. rewrite Et in El. discriminate.
+  Qed.
+
+  Lemma id_in_gspec gk : In gk ["population"; "projection"; "electrical"; "continuous"; "inputlist"; "sized_population"] ->
+    exists arg, In ("id", "id", arg) (gspec gk).
+  Proof.
+    simpl. intros [K|[K|[K|[K|[K|[K|[]]]]]]]; subst gk; vm_compute; eauto.
+  Qed.
+
+  Lemma group_kind_of cg kind :
+    In kind table_kinds -> group_class g (cg_name F cg) = Some (class_of_kind kind) ->
+    (class_of_kind kind = "projection" -> kind_of_type (read_attr (cg_attrs F cg) "type") = kind) ->
+    group_kind F g cg = Some kind.
+  Proof.
+    intros Hk Hc Ht. unfold group_kind. rewrite Hc. unfold table_kinds in Hk. simpl in Hk.
+    destruct Hk as [K|[K|[K|[K|[K|[]]]]]]; subst kind; simpl in *; try reflexivity; rewrite (Ht eq_refl); reflexivity.
+  Qed.
+
+  Lemma cgroup_back cs c :
+    supported_c cs c ->
+    exists cg, write_cgroup c = Some cg /\
+      group_class g (cg_name F cg) = Some (class_of_kind (dc_kind F c)) /\
+      read_attr (cg_attrs F cg) "id" = dc_attrs F c "id" /\
+      (match cg_array F cg with Some (_, cells) => nonempty cells | None => false end) = nonempty (dc_rows F c) /\
+      forall pops,
+        ((dc_kind F c = "electrical" \/ dc_kind F c = "continuous") ->
+           pop_inst pops (dc_attrs F c "pre") (dc_attrs F c "post") = dc_inst cs c) ->
+        load_cgroup pops cg = Some (sem32_dc cs c).
+  Proof.
+    intros (Hk & Hf & Ht & Hv & Hempty & Hsel & Hu).
+    destruct (gen_gattrs g Hgr) as [Gt [Gs _]].
+    destruct sk_parts as [_ [Ty [Tye _]]]. rewrite forallb_forall in Ty.
+    unfold H5.write_cgroup. destruct c as [kind attrs rows]. cbn [H5.dc_kind H5.dc_attrs H5.dc_rows] in *.
+    destruct rows as [|r0 rt].
+    - (* no rows *)
+      destruct (Hempty eq_refl) as [K|K]; subst kind; simpl.
+      + eexists. split; [reflexivity|]. simpl. split; [apply (class_of_written "population"); exact Hk|].
+        split; [apply (Gs attrs "id" "id" "population_id"); vm_compute; auto|]. split; [reflexivity|].
+        intros pops _. unfold H5.load_cgroup.
+        erewrite (group_kind_of _ "population" Hk); [|simpl; apply (class_of_written "population"); exact Hk|intro E; discriminate E].
+        simpl. unfold H5.sem32_dc. simpl. f_equal. f_equal. f_equal.
+        apply (fields_back (g_sized_pop_w g) "sized_population" attrs). intros a f arg Hin. eapply Gs; eauto.
+      + eexists. split; [reflexivity|]. simpl. split; [apply (class_of_written "projection"); exact Hk|].
+        split; [apply (empty_proj_attrs attrs "id" "id" "id"); vm_compute; auto|]. split; [reflexivity|].
+        intros pops _. unfold H5.load_cgroup.
+        erewrite (group_kind_of _ "projection" Hk);
+          [|simpl; apply (class_of_written "projection"); exact Hk|intros _; simpl; apply (type_attr_read "projection" _ attrs Tye eq_refl)].
+        simpl. unfold H5.sem32_dc. simpl. f_equal. f_equal. f_equal.
+        apply (fields_back (sk_empty_proj_w (g_skel g)) "projection" attrs). intros a f arg Hin. eapply empty_proj_attrs; eauto.
+    - (* a table *)
+      set (rows := r0 :: rt) in *.
+      destruct (select_table F cval weq g kind rows) as [wt|] eqn:Esel; [|exfalso; apply Hsel; [discriminate|reflexivity]].
+      assert (Hwt : In wt (g_writer g) /\ wt_kind wt = kind).
+      { unfold select_table in Esel. apply find_some in Esel as [E1 E2]. apply andb_true_iff in E2 as [E2 _].
+        apply String.eqb_eq in E2. auto. }
+      destruct Hwt as [Hwt Hwk].
+      destruct (rows_back kind true rows wt Hk Esel Hf Ht Hv) as [cells [Hw [Hlen _]]]; [intros _ E; discriminate E|].
+      fold rows. rewrite Hw.
+      eexists. split; [reflexivity|]. simpl. split; [apply class_of_written; exact Hk|].
+      assert (Fields : forall a f arg, In (a, f, arg) (gspec kind) -> read_attr (write_attrs (wt_gattrs wt) attrs) a = attrs f).
+      { intros a f arg Hin. apply (Gt wt Hwt attrs a f arg). rewrite Hwk. exact Hin. }
+      split.
+      { assert (Hgk : In kind ["population"; "projection"; "electrical"; "continuous"; "inputlist"; "sized_population"]).
+        { unfold table_kinds in Hk. simpl in *. tauto. }
+        destruct (id_in_gspec kind Hgk) as [arg Hin]. eapply Fields; eauto. }
+      split.
+      { destruct cells; [simpl in Hlen; discriminate|reflexivity]. }
+      intros pops Hinst. unfold H5.load_cgroup. simpl.
+      assert (GK : group_kind F g {| cg_name := (kind_prefix g kind ++ str_of (attrs "id"))%string;
+                                     cg_attrs := write_attrs (wt_gattrs wt) attrs; cg_array := Some (wt_names wt, cells) |} = Some kind).
+      { apply group_kind_of; auto; [apply class_of_written; exact Hk|]. simpl. intro Hc.
+        apply type_attr_read; auto. specialize (Ty wt Hwt). rewrite Hwk in Ty. exact Ty. }
+      rewrite GK. simpl.
+      set (inst := pop_inst pops (read_attr (write_attrs (wt_gattrs wt) attrs) (attr_name_of kind "pre"))
+                            (read_attr (write_attrs (wt_gattrs wt) attrs) (attr_name_of kind "post"))).
+      assert (Hu' : kind = "electrical" \/ kind = "continuous" -> inst = false ->
+                    Forall (fun r => unitw F cval weq kind (sem32_of F r32 kind (snd r)) = true) rows).
+      { intros K I. apply (Hu K). rewrite <- (Hinst K). transitivity inst; [|exact I]. unfold inst.
+        destruct K as [K|K]; rewrite K; f_equal; symmetry.
+        - apply (Fields "presynapticPopulation" "pre" "prePop"). rewrite K. vm_compute. auto.
+        - apply (Fields "postsynapticPopulation" "post" "postPop"). rewrite K. vm_compute. auto.
+        - apply (Fields "presynapticPopulation" "pre" "prePop"). rewrite K. vm_compute. auto.
+        - apply (Fields "postsynapticPopulation" "post" "postPop"). rewrite K. vm_compute. auto. }
+      destruct (rows_back kind inst rows wt Hk Esel Hf Ht Hv Hu') as [cells' [Hw' [_ Hl]]].
+      rewrite Hw in Hw'. inversion Hw'; subst cells'. rewrite Hl.
+      unfold H5.sem32_dc. simpl.
+      assert (GKK : gkind kind true = kind).
+      { unfold gkind. destruct (String.eqb kind "population"); reflexivity. }
+      rewrite GKK. f_equal. f_equal. f_equal. apply (fields_back (wt_gattrs wt) kind attrs). exact Fields.
+  Qed.
+
+  (* ---------------------------------------------------------------- one network: any number of constructs *)
+  Definition supported_n (n : dnetwork F) : Prop := Forall (supported_c (dn_constructs F n)) (dn_constructs F n).
+
+  Definition wrote (cs0 : list dconstruct) (c : dconstruct) (cg : cgroup F) : Prop :=
+    In (dc_kind F c) table_kinds /\
+    group_class g (cg_name F cg) = Some (class_of_kind (dc_kind F c)) /\
+    read_attr (cg_attrs F cg) "id" = dc_attrs F c "id" /\
+    (match cg_array F cg with Some (_, cells) => nonempty cells | None => false end) = nonempty (dc_rows F c) /\
+    forall pops,
+      ((dc_kind F c = "electrical" \/ dc_kind F c = "continuous") ->
+         pop_inst pops (dc_attrs F c "pre") (dc_attrs F c "post") = dc_inst cs0 c) ->
+      load_cgroup pops cg = Some (sem32_dc cs0 c).
+
+  Lemma write_all cs0 : forall l, Forall (supported_c cs0) l ->
+    exists cgs, all_some (map write_cgroup l) = Some cgs /\ Forall2 (wrote cs0) l cgs.
+  Proof.
+    induction l as [|c t IH]; intro H; [exists []; simpl; auto|].
+    inversion H as [|? ? Hc Ht]; subst. destruct (IH Ht) as [cgs [Hw Hf]].
+    destruct (cgroup_back cs0 c Hc) as [cg [Hcg [A [B [C D]]]]].
+    exists (cg :: cgs). simpl. rewrite Hcg, Hw. split; [reflexivity|]. constructor; auto.
+    split; [destruct Hc; assumption|]. auto.
+  Qed.
+
+  Lemma is_pop_class kind : In kind table_kinds ->
+    ostr_eqb (Some (class_of_kind kind)) (Some "population") = String.eqb kind "population".
+  Proof.
+    unfold table_kinds. simpl. intros [K|[K|[K|[K|[K|[]]]]]]; subst kind; reflexivity.
+  Qed.
+
+  Lemma loaded_pops_eq cs0 : forall l cgs, Forall2 (wrote cs0) l cgs -> loaded_pops F g cgs = pops_of l.
+  Proof.
+    induction 1 as [|c cg l cgs (Hk & Hc & Hid & Hne & _) _ IH]; [reflexivity|].
+    unfold H5.loaded_pops, H5.pops_of in *. simpl. rewrite Hc, (is_pop_class _ Hk).
+    destruct (String.eqb (dc_kind F c) "population"); simpl; rewrite IH; [rewrite Hid, Hne|]; reflexivity.
+  Qed.
+
+  Lemma existsb_map_filter {A B} (q : A -> bool) (f : A -> B) (p : B -> bool) l :
+    existsb p (map f (filter q l)) = existsb (fun x => q x && p (f x)) l.
+  Proof. induction l as [|x t IH]; simpl; auto. destruct (q x); simpl; rewrite IH; reflexivity. Qed.
+
+  Lemma pop_inst_order cgs pre post :
+    pop_inst (loaded_pops F g (corder cgs)) pre post = pop_inst (loaded_pops F g cgs) pre post.
+  Proof.
+    unfold pop_inst, H5.loaded_pops. rewrite !existsb_map_filter. apply existsb_perm. apply Hcorder.
+  Qed.
+
+  Lemma loads_all cs0 pops : forall l cgs, Forall2 (wrote cs0) l cgs ->
+    (forall pre post, pop_inst pops pre post = pop_inst (pops_of cs0) pre post) ->
+    map (load_cgroup pops) cgs = map Some (map (sem32_dc cs0) l).
+  Proof.
+    induction 1 as [|c cg l cgs (_ & _ & _ & _ & Hl) _ IH]; intro Hp; [reflexivity|].
+    simpl. rewrite IH by exact Hp. f_equal. apply Hl. intros _. apply Hp.
+  Qed.
+
+  Lemma all_some_perm {A} (l : list (option A)) r : Permutation l (map Some r) -> exists r', all_some l = Some r' /\ Permutation r' r.
+  Proof.
+    intro P. apply Permutation_map_inv in P as [r' [E P]]. exists r'. subst l. split; [apply all_some_map_some|].
+    apply Permutation_sym. exact P.
+  Qed.
+
+  Theorem network_back (n : dnetwork F) : supported_n n ->
+    exists ng, write_network F r32 cval weq g n = Some ng /\
+    exists sems, load_network F rint cval ofnat other weq corder g ng
+                 = Some (map (fun f => (f, dn_attrs F n f)) (attr_fields "network"), sems)
+              /\ Permutation sems (map (sem32_dc (dn_constructs F n)) (dn_constructs F n)).
+  Proof.
+    intro Hs. unfold supported_n in Hs. set (cs := dn_constructs F n) in *.
+    destruct (write_all cs cs Hs) as [cgs [Hw Hf]].
+    unfold H5.write_network. fold cs. rewrite Hw. eexists. split; [reflexivity|].
+    unfold H5.load_network. simpl.
+    set (pops := loaded_pops F g (corder cgs)).
+    assert (Hp : forall pre post, pop_inst pops pre post = pop_inst (pops_of cs) pre post).
+    { intros pre post. unfold pops. rewrite pop_inst_order, (loaded_pops_eq cs cs cgs Hf). reflexivity. }
+    pose proof (loads_all cs pops cs cgs Hf Hp) as HL.
+    assert (P : Permutation (map (load_cgroup pops) (corder cgs)) (map Some (map (sem32_dc cs) cs))).
+    { rewrite <- HL. apply Permutation_map. apply Hcorder. }
+    destruct (all_some_perm _ _ P) as [sems [Ha Hperm]].
+    rewrite Ha. exists sems. split; [|exact Hperm]. f_equal. f_equal.
+    destruct (gen_gattrs g Hgr) as [_ [_ [_ Gn]]].
+    apply (fields_back (g_net_w g) "network" (dn_attrs F n)). intros a f arg Hin. eapply Gn; eauto.
+  Qed.
+
+  (* ---------------------------------------------------------------- the document *)
+  Definition supported_d (d : document F X) : Prop :=
+    length (dd_networks F X d) <= 1 /\ Forall supported_n (dd_networks F X d).
+
+  (* the part of the document that travels as embedded XML: EXACTLY the conclusion of the C01 theorem
+     (Proofs/GdsP.v roundtrip: export gives an element from which build, told the class, gives the object back) *)
+  Definition c01_premise (d : document F X) : Prop :=
+    forall o, In o (dd_top F X d) -> exists x, xexport o = Some x /\ xbuild (xcls o) x = Some o.
+
+  Definition net_image (n : dnetwork F) (ln : list (string * option string) * list (csem F)) : Prop :=
+    fst ln = map (fun f => (f, dn_attrs F n f)) (attr_fields "network") /\
+    Permutation (snd ln) (map (sem32_dc (dn_constructs F n)) (dn_constructs F n)).
+
+  Lemma top_back (l : list X) : (forall o, In o l -> exists x, xexport o = Some x /\ xbuild (xcls o) x = Some o) ->
+    exists xs, all_some (map (fun o => match xexport o with Some x => Some (xcls o, x) | None => None end) l) = Some xs /\
+               all_some (map (fun cx => xbuild (fst cx) (snd cx)) xs) = Some l.
+  Proof.
+    induction l as [|o t IH]; intro H; [exists []; auto|].
+    destruct (H o (or_introl eq_refl)) as [x [Ex Eb]]. destruct (IH (fun o' Ho' => H o' (or_intror Ho'))) as [xs [E1 E2]].
+    exists ((xcls o, x) :: xs). simpl. rewrite Ex, E1. simpl. rewrite Eb, E2. auto.
+  Qed.
+
+  Lemma nets_back (l : list (dnetwork F)) : Forall supported_n l ->
+    exists ngs, all_some (map (write_network F r32 cval weq g) l) = Some ngs /\
+    exists lns, all_some (map (load_network F rint cval ofnat other weq corder g) ngs) = Some lns /\ Forall2 net_image l lns.
+  Proof.
+    induction l as [|n t IH]; intro H; [exists []; split; auto; exists []; auto|].
+    inversion H as [|? ? Hn Ht]; subst. destruct (IH Ht) as [ngs [E1 [lns [E2 F2]]]].
+    destruct (network_back n Hn) as [ng [Ew [sems [El Hp]]]].
+    exists (ng :: ngs). simpl. rewrite Ew, E1. split; [reflexivity|].
+    eexists. simpl. rewrite El, E2. split; [reflexivity|]. constructor; auto. split; auto.
+  Qed.
+
+  Theorem document_roundtrip (d : document F X) :
+    supported_d d -> c01_premise d ->
+    exists f, write_document F r32 cval weq X XML xcls xexport g d = Some f /\
+    exists nets, load_document F rint cval ofnat other weq X XML xbuild corder g f
+                 = Some (map (fun f => (f, dd_attrs F X d f)) (attr_fields "document"), dd_top F X d, nets)
+              /\ Forall2 net_image (dd_networks F X d) nets.
+  Proof.
+    intros [Hlen Hn] Hx.
+    destruct (top_back (dd_top F X d) Hx) as [xs [Ex Eb]].
+    destruct (nets_back (dd_networks F X d) Hn) as [ngs [Ew [lns [El F2]]]].
+    unfold H5.write_document.
+    assert (W : match dd_networks F X d with
+                | _ :: _ :: _ => None
+                | nets => match all_some (map (write_network F r32 cval weq g) nets),
+                                all_some (map (fun o => match xexport o with Some x => Some (xcls o, x) | None => None end) (dd_top F X d)) with
+                          | Some ngs0, Some xs0 => Some {| f_root := sk_root (g_skel g); f_attrs := write_attrs (g_doc_w g) (dd_attrs F X d);
+                                                           f_xml := xs0; f_networks := ngs0 |}
+                          | _, _ => None end
+                end = Some {| f_root := sk_root (g_skel g); f_attrs := write_attrs (g_doc_w g) (dd_attrs F X d);
+                              f_xml := xs; f_networks := ngs |}).
+    { destruct (dd_networks F X d) as [|n1 [|n2 t]]; [| |simpl in Hlen; lia]; rewrite Ew, Ex; reflexivity. }
+    rewrite W. eexists. split; [reflexivity|].
+    unfold H5.load_document. simpl. rewrite Eb, El. exists lns. split; [|exact F2]. f_equal. f_equal. f_equal.
+    destruct (gen_gattrs g Hgr) as [_ [_ [Gd _]]].
+    apply (fields_back (g_doc_w g) "document" (dd_attrs F X d)). intros a f arg Hin. eapply Gd; eauto.
+  Qed.
+End Doc.
+
+(* ====================================================================== the optimized loader as a second reader *)
+Section Opt.
+  Variable F : Type.
+  Variables (r32 rint : F -> F) (cval : cst -> F) (ofnat : nat -> F) (isint : F -> bool).
+  Hypothesis H1 : forall x, isint x = true -> rint (r32 x) = r32 x.
+  Hypothesis H3 : forall c, r32 (cval c) = cval c.
+
+  Lemma opt_decode_ok names cols oe (fields : sem_row F) i :
+    oe_ok names cols oe = true -> typed F isint fields -> defaults_ok F cval cols fields ->
+    field_stored cols (oe_field oe) = true \/ sem_default (oe_field oe) <> None ->
+    opt_decode F rint cval ofnat names oe i (encode_row F r32 cval cols fields) = Some (r32 (fields (oe_field oe))).
+  Proof.
+    intros Hok Hty Hdef Hheld. unfold oe_ok in Hok. apply andb_true_iff in Hok as [_ Hok]. unfold opt_decode.
+    destruct (find_col names (oe_name oe) 0) as [j|] eqn:Ej.
+    - apply andb_true_iff in Hok as [Hg Hc]. rewrite Hg.
+      destruct (nth_error cols j) as [[f|c]|] eqn:En; try discriminate.
+      apply andb_true_iff in Hc as [Hf Hint]. apply String.eqb_eq in Hf. subst f.
+      unfold H5.encode_row. rewrite nth_error_map, En. simpl. f_equal.
+      destruct (oe_int oe); [|reflexivity]. simpl in Hint. apply H1. apply Hty. exact Hint.
+    - apply andb_true_iff in Hok as [Hns Hd]. apply negb_true_iff in Hns.
+      destruct (sem_default (oe_field oe)) as [c|] eqn:Ed.
+      + destruct (oe_dflt oe); try discriminate. apply cst_eqb_eq in Hd. subst c0. simpl.
+        rewrite (Hdef _ c Hns Ed), H3. reflexivity.
+      + destruct Hheld as [H|H]; congruence.
+  Qed.
+
+  Theorem gen_optimized_row (g : h5gen) : optimized_ok g = true ->
+    forall wt v ot oe, In wt (g_writer g) -> opt_supported wt = true -> In v (wt_variants wt) ->
+    find (fun ot => String.eqb (ot_kind ot) (wt_kind wt)) (g_opt g) = Some ot -> In oe (ot_entries ot) ->
+    forall (fields : sem_row F) i, typed F isint fields -> defaults_ok F cval (wv_cols v) fields ->
+    field_stored (wv_cols v) (oe_field oe) = true \/ sem_default (oe_field oe) <> None ->
+    opt_decode F rint cval ofnat (wt_names wt) oe i (encode_row F r32 cval (wv_cols v) fields) = Some (r32 (fields (oe_field oe))).
+  Proof.
+    unfold optimized_ok. intros H wt v ot oe Hwt Hs Hv Hot Hoe fields i Hty Hdef Hheld.
+    apply andb_true_iff in H as [H _]. rewrite forallb_forall in H. specialize (H wt Hwt).
+    unfold opt_table_ok in H. rewrite Hs in H. simpl in H. rewrite forallb_forall in H. specialize (H v Hv).
+    rewrite Hot in H. apply andb_true_iff in H as [H _]. rewrite forallb_forall in H.
+    apply opt_decode_ok; auto.
+  Qed.
+End Opt.
